@@ -380,7 +380,24 @@ func repairScenario(r *rand.Rand) []dbx.Op {
 			}
 		}
 		if liveHost[a] || (!hosted && r.Intn(4) != 0) {
-			ops = append(ops, hostReport(a, false, map[int]bool{0: true}, true))
+			op := hostReport(a, false, map[int]bool{0: true}, true)
+			// stray replicas: the host also runs a replica of a shard it hosts no member of, with a membership older than the
+			// view's (also for shards that are about to be restored or repaired)
+			for _, c := range shards {
+				mine := false
+				for _, m := range c.members {
+					mine = mine || m.addr == a
+				}
+				if !mine && c.ver > 0 && r.Intn(3) == 0 {
+					in := dbx.Info{S: c.id, R: uint64(8000 + 10*int(c.id) + int(a[1]-'0')), Cci: c.ver - 1, Inc: r.Intn(2) == 0}
+					if !in.Inc {
+						in.Reps = [][]interface{}{{in.R, a}}
+					}
+					op.IDs = append(op.IDs, c.id)
+					op.Infos = append(op.Infos, in)
+				}
+			}
+			ops = append(ops, op)
 		}
 	}
 	for i := 0; i < r.Intn(3); i++ {
